@@ -4064,7 +4064,10 @@ func (r *Resolver) resolveWithCachedNameservers(ctx context.Context, rs *resolve
 		return nil, errMaxDepth
 	}
 
-	rs.level++
+	// The level is the depth of the zone being entered, not one more than
+	// wherever the walk happened to be: a referral can jump several labels,
+	// and the glue bailiwick check for the next referral is anchored on it.
+	rs.level = dns.CountLabel(cached.Servers.Zone)
 	rs.servers = cached.Servers
 	rs.parentDS = cached.DSSet
 	rs.isRoot = false
